@@ -228,7 +228,7 @@ def nofeedbackExpired (ops : FloatOps F) (s : State F) (now : Nat) : R (State F)
           let cur := min tcp (satMul2 recv)
           let newLimit := max (cur / 2) MINIMUM_RATE
           .ok { s with recvSet := [{ value := newLimit / 2, ts := now, isInitial := false }],
-                       sendRate := min (min tcp newLimit) s.maxSendRate }
+                       sendRate := min (max (min tcp newLimit) MINIMUM_RATE) s.maxSendRate }
     | .awaitSend => .error .panic
   match r with
   | .error t => .error t
